@@ -18,6 +18,7 @@ import (
 // Item programs for the ID placeholder: a '|'-separated list of actions
 //   S<x> set placeholder to x    R read it    G GetIdOrPlaceholder("")    E GetIdOrPlaceholder("explicit") (must not touch the placeholder)
 //   F fail (typed error)    P panic
+// and two whole-item programs refused by the router before any handler runs: U (operation without a route), X (critical extension)
 // The handler answers with the observations it made ("R=<v>;G=<v>").
 
 var phObj mc.Obj // placeholder accesses are declared as conflicting accesses to one object (keeps the state cache from merging their orders)
@@ -83,8 +84,11 @@ func phModel(items []string, stop bool) []string {
 			continue
 		}
 		var obs []string
-		failed := false
+		failed := prog == "U" || prog == "X"
 		for _, a := range strings.Split(prog, "|") {
+			if failed {
+				break
+			}
 			if a == "" {
 				continue
 			}
@@ -124,9 +128,18 @@ func phModel(items []string, stop bool) []string {
 func phRequest(tag string, items []string, stop bool) *kmip.RequestMessage {
 	var pls []kmip.OperationPayload
 	for _, it := range items {
+		if it == "U" {
+			pls = append(pls, &payloads.RevokeRequestPayload{UniqueIdentifier: tag + "#U"})
+			continue
+		}
 		pls = append(pls, &payloads.ActivateRequestPayload{UniqueIdentifier: tag + "#" + it})
 	}
 	msg := kmip.NewRequestMessage(kmip.V1_4, pls...)
+	for i, it := range items {
+		if it == "X" {
+			msg.BatchItem[i].MessageExtension = &kmip.MessageExtension{VendorIdentification: "v", CriticalityIndicator: true}
+		}
+	}
 	if stop {
 		msg.Header.BatchErrorContinuationOption = kmip.BatchErrorContinuationOptionStop
 	}
@@ -183,7 +196,7 @@ func phItemPrograms(maxActions int) []string {
 		progs = append(progs, next...)
 		cur = next
 	}
-	return append(progs, "P", "Sa|P")
+	return append(progs, "P", "Sa|P", "U", "X")
 }
 
 // phExecutor builds the executor under test; withMW registers a pass-through message middleware and a pass-through
